@@ -201,7 +201,7 @@ class MoveProp(core.Prop):
         # random op sequences
         nworlds = 300 if quick else 10000
         for _ in range(nworlds):
-            desc = gridw.maybe_enc0(rng, gridw.gen_world(rng, kinds=mover_kinds), 0.08)
+            desc = gridw.maybe_late(rng, gridw.maybe_enc0(rng, gridw.gen_world(rng, kinds=mover_kinds), 0.08), 0.08)
             try:
                 sess = MoveSession(desc)
             except ValueError:
